@@ -1,9 +1,313 @@
 import Pixman.Spec.PointSet
-/-! C07 — property theorems. -/
+import Pixman.Spec.Canon
+import Pixman.Lemmas.RegionQuery
+import Pixman.Lemmas.RegionTranslate
+import Pixman.Lemmas.RegionContainsRect
+import Pixman.Lemmas.RegionImage
+/-! C07 — property theorems: queries, translation, bitmap import. -/
 namespace Pixman.Props.C07
 open Pixman.Region
 
 theorem init_not_mem (x y : Int) : ¬ init.Mem x y := by
   simp [Region.Mem, MemL, init, Region.rects]
+
+/-- two spans, then one span, then (after a gap) one span -/
+def exL : List Box := [⟨0, 0, 2, 1⟩, ⟨3, 0, 5, 1⟩, ⟨0, 1, 2, 3⟩, ⟨0, 5, 2, 6⟩]
+def exR : Region := ⟨⟨0, 0, 5, 6⟩, .heap exL⟩
+
+example : Canon exR := by decide
+
+/-! ### find_box_for_y -/
+
+/-- The literal binary search returns the first index of `[b, e)` whose box has `y2 > y`
+    (`e` if there is none) whenever the `y2` are non-decreasing on `[b, e)`. -/
+theorem findBoxForYIdx_first (a : Array Box) (y : Int) (b e : Nat) (hbe : b ≤ e)
+    (mono : ∀ i j, b ≤ i → i ≤ j → j < e → (a.getD i default).y2 ≤ (a.getD j default).y2) :
+    b ≤ findBoxForYIdx a y b e ∧ findBoxForYIdx a y b e ≤ e ∧
+    (∀ i, b ≤ i → i < findBoxForYIdx a y b e → (a.getD i default).y2 ≤ y) ∧
+    (findBoxForYIdx a y b e < e → (a.getD (findBoxForYIdx a y b e) default).y2 > y) :=
+  findBoxForYIdx_spec a y b e hbe mono
+
+example : findBoxForYIdx exL.toArray 2 0 4 = 2 ∧ findBoxForYIdx exL.toArray 7 0 4 = 4 := by
+  simp [findBoxForYIdx, exL]
+
+/-- … so it computes the suffix `findBoxForY` (first box with `y2 > y` onwards). -/
+theorem findBoxForYIdx_eq (l : List Box) (y : Int) (mono : l.Pairwise (fun p q => p.y2 ≤ q.y2)) :
+    l.drop (findBoxForYIdx l.toArray y 0 l.toArray.size) = findBoxForY l y :=
+  drop_findBoxForYIdx l y mono
+
+/-- Canonical lists have non-decreasing `y2`. -/
+theorem findBoxForYIdx_canon {l : List Box} (h : CanonList l) (y : Int) :
+    l.drop (findBoxForYIdx l.toArray y 0 l.toArray.size) = findBoxForY l y :=
+  drop_findBoxForYIdx l y (banded_y2_mono (canonList_banded h))
+
+example : CanonList exL ∧ findBoxForY exL 1 = [⟨0, 1, 2, 3⟩, ⟨0, 5, 2, 6⟩] := by decide
+
+/-! ### contains_point -/
+
+/-- The box reported by `contains_point` is a rectangle of the region and contains the point. -/
+theorem containsPoint_some {r : Region} (h : Canon r) {x y : Int} {b : Box}
+    (hb : containsPoint r x y = some b) : b ∈ r.rects ∧ b.Mem x y := by
+  have := containsPoint_spec h x y
+  rw [hb] at this
+  exact this
+
+/-- `contains_point` fails exactly on the points outside the region. -/
+theorem containsPoint_none {r : Region} (h : Canon r) (x y : Int) :
+    containsPoint r x y = none ↔ ¬ r.Mem x y := by
+  have := containsPoint_spec h x y
+  constructor
+  · intro hn; rw [hn] at this; exact this
+  · intro hn
+    revert this
+    cases containsPoint r x y with
+    | none => intro _; rfl
+    | some p => intro this; exact absurd ⟨p, this.1, this.2⟩ hn
+
+theorem containsPoint_isSome {r : Region} (h : Canon r) (x y : Int) :
+    (containsPoint r x y).isSome = true ↔ r.Mem x y := by
+  have := containsPoint_none h x y
+  cases hc : containsPoint r x y with
+  | none => simp only [hc, true_iff] at this; simp [this]
+  | some p =>
+    simp only [hc, reduceCtorEq, false_iff, Classical.not_not] at this
+    simp [this]
+
+example : containsPoint exR 4 0 = some ⟨3, 0, 5, 1⟩ ∧ containsPoint exR 2 0 = none ∧
+    containsPoint exR 1 5 = some ⟨0, 5, 2, 6⟩ ∧ containsPoint exR 1 4 = none := by
+  simp [containsPoint, findBoxForYIdx, exL, exR, Region.numRects, Region.rects, inBox,
+    containsPointLoop]
+
+/-! ### contains_rectangle -/
+
+/-- IN exactly when every point of the (non-empty) query box is in the region. -/
+theorem containsRectangle_inn {r : Region} (h : Canon r) {q : Box} (hq : goodRect q = true) :
+    containsRectangle r q = .inn ↔ ∀ x y, q.Mem x y → r.Mem x y :=
+  (containsRectangle_spec h hq).1
+
+/-- OUT exactly when no point of the query box is in the region. -/
+theorem containsRectangle_out {r : Region} (h : Canon r) {q : Box} (hq : goodRect q = true) :
+    containsRectangle r q = .out ↔ ∀ x y, q.Mem x y → ¬ r.Mem x y :=
+  (containsRectangle_spec h hq).2
+
+/-- PART otherwise: some point of the query box is in the region and some point is not. -/
+theorem containsRectangle_part {r : Region} (h : Canon r) {q : Box} (hq : goodRect q = true) :
+    containsRectangle r q = .part ↔
+      ((∃ x y, q.Mem x y ∧ r.Mem x y) ∧ (∃ x y, q.Mem x y ∧ ¬ r.Mem x y)) := by
+  have h1 := containsRectangle_inn h hq
+  have h2 := containsRectangle_out h hq
+  constructor
+  · intro hp
+    rw [hp] at h1 h2
+    simp only [reduceCtorEq, false_iff] at h1 h2
+    constructor
+    · apply Classical.byContradiction
+      intro hn
+      apply h2
+      intro x y m1 m2
+      exact hn ⟨x, y, m1, m2⟩
+    · apply Classical.byContradiction
+      intro hn
+      apply h1
+      intro x y m1
+      apply Classical.byContradiction
+      intro m2
+      exact hn ⟨x, y, m1, m2⟩
+  · rintro ⟨⟨x, y, m1, m2⟩, ⟨x', y', m1', m2'⟩⟩
+    cases hc : containsRectangle r q with
+    | part => rfl
+    | inn => exact absurd (h1.1 hc x' y' m1') m2'
+    | out => exact absurd m2 (h2.1 hc x y m1)
+
+example : Canon exR ∧ goodRect ⟨0, 1, 2, 3⟩ = true := by decide
+example : containsRectangle exR ⟨0, 1, 2, 3⟩ = .inn ∧ containsRectangle exR ⟨0, 0, 2, 3⟩ = .inn ∧
+    containsRectangle exR ⟨0, 0, 3, 1⟩ = .part ∧ containsRectangle exR ⟨0, 2, 2, 6⟩ = .part ∧
+    containsRectangle exR ⟨2, 1, 5, 6⟩ = .out ∧ containsRectangle exR ⟨0, 3, 5, 5⟩ = .out := by
+  simp [containsRectangle, containsRectLoop, findBoxForYIdx, exL, exR, Region.numRects,
+    Region.rects, extentCheck]
+
+/-! ### not_empty, n_rects -/
+
+theorem notEmpty_iff {r : Region} (h : Canon r) : notEmpty r = true ↔ ∃ x y, r.Mem x y := by
+  have hn := canon_nil_iff h
+  unfold notEmpty
+  constructor
+  · intro hne
+    apply canonList_point (canon_canonList h)
+    intro e
+    rw [hn.2 e] at hne
+    cases hne
+  · rintro ⟨x, y, b, hb, _⟩
+    cases hnil : r.nil with
+    | false => rfl
+    | true => rw [hn.1 hnil] at hb; cases hb
+
+/-- `n_rects` is the length of the canonical list; it is 0 exactly for the empty set. -/
+theorem numRects_eq (r : Region) : r.numRects = r.rects.length := rfl
+
+theorem numRects_zero_iff {r : Region} (h : Canon r) :
+    r.numRects = 0 ↔ ¬ ∃ x y, r.Mem x y := by
+  rw [← notEmpty_iff h, notEmpty, Region.numRects, List.length_eq_zero_iff, ← canon_nil_iff h]
+  cases r.nil <;> simp
+
+example : notEmpty exR = true ∧ exR.numRects = 4 := by decide
+
+/-! ### translate -/
+
+/-- Conversion to the coordinate type is the identity on representable values
+    (`1 ≤ c.bits` covers both instantiations `c16`, `c32`). -/
+theorem wrapS_id (c : Cfg) (hc : 1 ≤ c.bits) (v : Int) (h1 : c.min ≤ v) (h2 : v ≤ c.max) :
+    wrapS c.bits v = v := Pixman.Region.wrapS_id c hc v h1 h2
+
+example : 1 ≤ c16.bits ∧ 1 ≤ c32.bits ∧ wrapS 16 (-32768) = -32768 ∧ wrapS 16 32768 = -32768 := by
+  decide
+
+/-- Fast path (translated extents representable): the region is moved, nothing is lost.
+    No assumption on `validate`.  (`FastCond` is the C test on the widened sums.) -/
+theorem translate_mem_fast (c : Cfg) (hc : 1 ≤ c.bits) {r : Region} (h : Canon r) (dx dy : Int)
+    (hf : FastCond c r dx dy) (x y : Int) :
+    (translate c r dx dy).Mem x y ↔
+      (r.Mem (x - dx) (y - dy) ∧ c.min ≤ x ∧ x < c.max ∧ c.min ≤ y ∧ y < c.max) :=
+  translate_mem_fast' c hc h dx dy hf x y
+
+/-- On the fast path the result is `r` shifted, rectangle by rectangle. -/
+theorem translate_fast_rects (c : Cfg) (hc : 1 ≤ c.bits) {r : Region} (h : Canon r) (dx dy : Int)
+    (hf : FastCond c r dx dy) :
+    (translate c r dx dy).rects = r.rects.map (shiftBox · dx dy) ∧
+    (translate c r dx dy).extents = shiftBox r.extents dx dy :=
+  translate_fast c hc h dx dy hf
+
+example : Canon exR ∧ FastCond c16 exR 32762 (-32768) := by decide
+
+/-- Empty path (translated extents wholly outside the range): the result is empty, and
+    indeed no point of `r` lands in range. -/
+theorem translate_mem_out (c : Cfg) {r : Region} (h : Canon r) (dx dy : Int)
+    (hf : ¬ FastCond c r dx dy)
+    (ho : outOfRange c (r.extents.x1 + dx) (r.extents.y1 + dy) (r.extents.x2 + dx)
+      (r.extents.y2 + dy) = true) (x y : Int) :
+    (translate c r dx dy).Mem x y ↔
+      (r.Mem (x - dx) (y - dy) ∧ c.min ≤ x ∧ x < c.max ∧ c.min ≤ y ∧ y < c.max) :=
+  translate_mem_out' c h dx dy hf ho x y
+
+example : Canon exR ∧ ¬ FastCond c16 exR 32767 0 ∧
+    outOfRange c16 (exR.extents.x1 + 32767) (exR.extents.y1 + 0) (exR.extents.x2 + 32767)
+      (exR.extents.y2 + 0) = true := by decide
+
+/-- Regions of at most one rectangle: every path, no assumption on `validate`. -/
+theorem translate_mem_small (c : Cfg) (hc : 1 ≤ c.bits) {r : Region} (h : Canon r)
+    (hn : r.numRects ≤ 1) (dx dy : Int) (x y : Int) :
+    (translate c r dx dy).Mem x y ↔
+      (r.Mem (x - dx) (y - dy) ∧ c.min ≤ x ∧ x < c.max ∧ c.min ≤ y ∧ y < c.max) := by
+  by_cases hf : FastCond c r dx dy
+  · exact translate_mem_fast' c hc h dx dy hf x y
+  · cases ho : outOfRange c (r.extents.x1 + dx) (r.extents.y1 + dy) (r.extents.x2 + dx)
+        (r.extents.y2 + dy)
+    · apply translate_mem_slow' c h dx dy hf ho
+      intro h2
+      have : (clampList c dx dy r.rects).length ≤ r.rects.length := List.length_filterMap_le ..
+      unfold Region.numRects at hn
+      omega
+    · exact translate_mem_out' c h dx dy hf ho x y
+
+example : Canon (⟨⟨0, 0, 5, 6⟩, .single⟩ : Region) ∧
+    ¬ FastCond c16 ⟨⟨0, 0, 5, 6⟩, .single⟩ 32765 0 := by decide
+
+/-- C07 translate, all paths.  PARTIAL: the slow path with two or more surviving rectangles
+    ends in `validate`; its point-set correctness on lists of non-empty rectangles is the
+    hypothesis `hvalidate` (to be discharged by the C05 work on `validateRects`).  Everything
+    else — the range tests, `wrapS`, dropping and clamping — is proved here.
+    The coordinates of `r` need not be assumed in range: the tests of the C code are on exact
+    (widened) sums. -/
+theorem translate_mem_partial (c : Cfg) (hc : 1 ≤ c.bits) {r : Region} (h : Canon r)
+    (dx dy : Int)
+    (hvalidate : ∀ l : List Box, (∀ b ∈ l, goodRect b = true) →
+      ∀ x y, (validateRects l).Mem x y ↔ MemL l x y)
+    (x y : Int) :
+    (translate c r dx dy).Mem x y ↔
+      (r.Mem (x - dx) (y - dy) ∧ c.min ≤ x ∧ x < c.max ∧ c.min ≤ y ∧ y < c.max) := by
+  by_cases hf : FastCond c r dx dy
+  · exact translate_mem_fast' c hc h dx dy hf x y
+  · cases ho : outOfRange c (r.extents.x1 + dx) (r.extents.y1 + dy) (r.extents.x2 + dx)
+        (r.extents.y2 + dy)
+    · apply translate_mem_slow' c h dx dy hf ho
+      intro _
+      exact hvalidate _ (clampList_good c dx dy r.rects (canonList_good (canon_canonList h)))
+    · exact translate_mem_out' c h dx dy hf ho x y
+
+-- slow path with three surviving rectangles (the instance the hypothesis is needed for)
+example : Canon exR ∧ ¬ FastCond c16 exR 32765 0 ∧
+    outOfRange c16 (exR.extents.x1 + 32765) (exR.extents.y1 + 0) (exR.extents.x2 + 32765)
+      (exR.extents.y2 + 0) = false ∧ (clampList c16 32765 0 exR.rects).length = 3 := by decide
+
+/-- Fast path: the result is canonical (it is `r` shifted, representation kept). -/
+theorem translate_canon_fast (c : Cfg) (hc : 1 ≤ c.bits) {r : Region} (h : Canon r) (dx dy : Int)
+    (hf : FastCond c r dx dy) :
+    translate c r dx dy = shiftRegion r dx dy ∧ Canon (translate c r dx dy) := by
+  have e := translate_fast_eq c hc h dx dy hf
+  exact ⟨e, e ▸ canon_shiftRegion h dx dy⟩
+
+/-- Regions of at most one rectangle stay canonical on every path. -/
+theorem translate_canon_small (c : Cfg) (hc : 1 ≤ c.bits) {r : Region} (h : Canon r)
+    (hn : r.numRects ≤ 1) (dx dy : Int) : Canon (translate c r dx dy) := by
+  apply translate_canon' c hc h dx dy
+  intro h2
+  have : (clampList c dx dy r.rects).length ≤ r.rects.length := List.length_filterMap_le ..
+  unfold Region.numRects at hn
+  omega
+
+/-- `translate` keeps the canonical form.  PARTIAL: that `validate` returns a canonical
+    region on a list of non-empty rectangles (slow path, two or more survivors) is the
+    hypothesis `hvalidate`; all other paths are proved. -/
+theorem translate_canon_partial (c : Cfg) (hc : 1 ≤ c.bits) {r : Region} (h : Canon r)
+    (dx dy : Int)
+    (hvalidate : ∀ l : List Box, (∀ b ∈ l, goodRect b = true) → 2 ≤ l.length →
+      Canon (validateRects l)) :
+    Canon (translate c r dx dy) := by
+  apply translate_canon' c hc h dx dy
+  intro h2
+  exact hvalidate _ (clampList_good c dx dy r.rects (canonList_good (canon_canonList h))) h2
+
+example : translate c16 exR 32762 (-32768) =
+    ⟨⟨32762, -32768, 32767, -32762⟩, .heap [⟨32762, -32768, 32764, -32767⟩,
+      ⟨32765, -32768, 32767, -32767⟩, ⟨32762, -32767, 32764, -32765⟩,
+      ⟨32762, -32763, 32764, -32762⟩]⟩ := by decide
+
+/-! ### init_from_image -/
+
+/-- `rowRuns` yields exactly the maximal runs of set bits of a row: they cover the set bits
+    and nothing else, each is non-empty and inside the row, and consecutive runs are separated
+    by at least one clear bit (`SpansSep` of the scan line's rectangles). -/
+theorem rowRuns_spec (h : Int) (row : List Bool) :
+    (∀ u, (∃ p ∈ rowRuns row, p.1 ≤ u ∧ u < p.2) ↔ (0 ≤ u ∧ row[u.toNat]? = some true)) ∧
+    SpansSep ((rowRuns row).map fun p => Box.mk p.1 h p.2 (h + 1)) ∧
+    (∀ p ∈ rowRuns row, 0 ≤ p.1 ∧ p.1 < p.2 ∧ p.2 ≤ row.length) :=
+  ⟨fun u => rowRuns_mem row u, (rowRuns_sep h row).1, (rowRuns_sep h row).2⟩
+
+example : rowRuns [true, true, false, true, false, false, true] = [(0, 2), (3, 4), (6, 7)] := by
+  decide
+
+def exImg : List (List Bool) :=
+  [[true, true, false, true, false], [true, true, false, true, false],
+   [false, false, false, false, false], [false, true, true, true, true]]
+
+/-- C07 init_from_image: the region is the set of set bits. -/
+theorem initFromImage_mem (w : Nat) (rows : List (List Bool))
+    (hw : ∀ row ∈ rows, row.length = w) (x y : Int) :
+    (initFromImage w rows).Mem x y ↔
+      (0 ≤ x ∧ 0 ≤ y ∧ ∃ row, rows[y.toNat]? = some row ∧ row[x.toNat]? = some true) := by
+  rw [initFromImage_mem' w rows (fun row hr => Nat.le_of_eq (hw row hr))]
+  unfold ImgBit Bit
+  constructor
+  · rintro ⟨hy, row, h1, hx, h2⟩; exact ⟨hx, hy, row, h1, h2⟩
+  · rintro ⟨hx, hy, row, h1, h2⟩; exact ⟨hy, row, h1, hx, h2⟩
+
+/-- … and it is canonical (bands coalesced, extents tight, one rectangle stored inline). -/
+theorem initFromImage_canon (w : Nat) (rows : List (List Bool))
+    (hw : ∀ row ∈ rows, row.length = w) : Canon (initFromImage w rows) :=
+  (initFromImage_spec w rows (fun row hr => Nat.le_of_eq (hw row hr))).2
+
+example : (∀ row ∈ exImg, row.length = 5) ∧
+    initFromImage 5 exImg =
+      ⟨⟨0, 0, 5, 4⟩, .heap [⟨0, 0, 2, 2⟩, ⟨3, 0, 4, 2⟩, ⟨1, 3, 5, 4⟩]⟩ := by decide
 
 end Pixman.Props.C07
